@@ -8,9 +8,12 @@ for p in props:
     pid = p["id"]
     path = os.path.join(ROOT, "checks", pid + ".py")
     if not os.path.exists(path):
-        na.append({"property_id": pid, "reason": NA.get(pid, "check not built yet (work in progress; see DESIGN.md section 6)") if (NA := {}) is not None else ""})
+        na.append({"property_id": pid, "reason": "check not built yet (work in progress; see DESIGN.md section 6)"})
         continue
     m = importlib.import_module("checks." + pid)
+    if getattr(m, "LEVEL_TEXT", "wip") == "wip":
+        na.append({"property_id": pid, "reason": "check under construction (contracts being written; see DESIGN.md section 6)"})
+        continue
     checks.append({
         "property_id": pid,
         "quick_cmd": f"./check {pid} --tier quick",
